@@ -337,7 +337,7 @@ func checkC09(ctx *RunCtx) int {
 	return finish(ctx, rep, &CheckSpec{
 		Extra: extra,
 		Prop:  "C09", Level: "exploration", EvalCounter: "quiescent_checks", NonTrivSet: "nontrivial",
-		Rule:        "random tournament histories against a world of real tables that follow the regulator's instructions (registration batches 1..4*max and bursts of 300, pending -> running -> registration closed at random points, syncs with 0-3 eliminations on random tables, releases, breaks, unknown-table calls), all settings 2<=min<=max<=10 plus 9/6, and long tournaments down to the final table. After every completed step: every live player is in exactly one of {waiting queue (hook), one table}, nobody is handed out twice or after elimination, GetPlayerCount/GetTableCount/GetTable(id).PlayerCount equal the real numbers; unknown-table syncs (also the repeated last report of a broken table) and late registrations must be refused with the observable state unchanged. Histories include re-entries under the same id, registration batches that are windows of one roster array, names handed over in one message buffer that the caller overwrites and re-uses after every call, tables that keep the list they were handed, releases delivered late (players counted as in transit), a pause (status back to pending and forward) and players who bust and register again before their table has reported the bust (unreported eliminations are counted on the regulator's side until the report). A further block of histories runs with fault injection at the two host callbacks: one call in 2..9 of RequestTableFn / AssignPlayersFn returns an error; players named in a failed call count as bounced (the host knows them), everything else - nobody in two places, nobody else missing, player total, table count, per-table counts - is required as without faults. A concurrent world (registrars and table owners on different goroutines, ledger at quiescence) runs in-process and in a -race build. evaluations = quiescent-point checks; non-trivial = distinct histories",
+		Rule:        "random tournament histories against a world of real tables that follow the regulator's instructions (registration batches 1..4*max and bursts of 300, pending -> running -> registration closed at random points, syncs with 0-3 eliminations on random tables, releases, breaks, unknown-table calls), all settings 2<=min<=max<=10 plus 9/6, and long tournaments down to the final table. After every completed step: every live player is in exactly one of {waiting queue (hook), one table}, nobody is handed out twice or after elimination, GetPlayerCount/GetTableCount/GetTable(id).PlayerCount equal the real numbers; unknown-table syncs (also the repeated last report of a broken table) and late registrations must be refused with the observable state unchanged. Histories include re-entries under the same id, registration batches that are windows of one roster array, names handed over in one message buffer that the caller overwrites and re-uses after every call, tables that keep the list they were handed, releases delivered late (players counted as in transit), a pause (status back to pending and forward) and players who bust and register again before their table has reported the bust (unreported eliminations are counted on the regulator's side until the report). A further block of histories runs with fault injection at the two host callbacks: one call in 2..9 of RequestTableFn / AssignPlayersFn returns an error; players named in a failed call count as bounced (the host knows them), everything else - nobody in two places, nobody else missing, player total, table count, per-table counts - is required as without faults. A concurrent world (registrars and table owners on different goroutines, ledger at quiescence; one tournament in three with the failing host during its concurrent phase) runs in-process and in a -race build. evaluations = quiescent-point checks; non-trivial = distinct histories",
 		Required:    []string{"class_players_waiting", "class_registration_after_deadline", "class_unknown_table", "class_table_broken", "top_ups", "releases", "long_tournaments", "class_final_table_reached", "class_re_entry", "class_delayed_release", "class_paused", "class_late_report_of_broken_table", "class_caller_buffer_reused", "class_re_entry_before_the_bust_is_reported", "host_faults_injected", "class_open_refused_by_host", "class_assign_refused_by_host", "concurrent_quiescent_checks", "race_build_concurrent_quiescent_checks"},
 		Assumptions: []string{"with a failing host the unchanged regulator does not queue the players of the failed call again; that loss is outside the property's quantifier (tables that follow its instructions) and is tolerated for exactly those players, named in the call the host failed", "ReleasePlayers never validates its table id and is legitimately called with the id of a table the regulator has just deleted; 'unknown table is refused' is asserted for SyncState/GetTable only", "tables follow the protocol of the repo's own tests: eliminate, report, seat the returned players, release exactly the requested number"},
 	})
